@@ -16,6 +16,9 @@ PROP = "C13"
 LEX_BAD = "PROGRAM lexbad VAR x : INT; END_VAR x := ?; END_PROGRAM\n"
 SYN_BAD = "PROGRAM synbad VAR x : INT END_VAR x := 1; END_PROGRAM\n"
 CODE = re.compile(r"error\[(P\d{4})\]")
+FILELESS = ["FUNCTION_BLOCK %(p)sF VAR CONSTANT L : ARRAY [1..3] OF INT := [1,2,3]; END_VAR END_FUNCTION_BLOCK\n",
+            "TYPE %(p)sA : ARRAY[0..3] OF INT; %(p)sAA : %(p)sA; %(p)sA2 : %(p)sAA; END_TYPE\n"]
+COUNTS = [1, 2, 3, 100, 254, 255, 256, 257, 258, 300, 511, 512, 513, 768, 1024, 1025]
 
 
 def contract(r, cmd):
@@ -46,7 +49,7 @@ def make_set(rng, avoid):
     """1-5 files: valid units with disjoint prefixes, at most one faulty file."""
     n = rng.randint(1, 5)
     files = []
-    fault = rng.choice(["none", "none", "lexical", "syntax", "semantic"])
+    fault = rng.choice(["none", "none", "lexical", "syntax", "semantic", "fileless"])
     for k in range(n):
         g = vgen.VGen(core.rng_for(rng.random(), k), prefix="U%d" % k, avoid=avoid)
         decls = g.unit(with_config=(k == 0 and rng.random() < 0.5), n_types=rng.randint(0, 2), n_fbs=rng.randint(0, 2),
@@ -59,7 +62,10 @@ def make_set(rng, avoid):
     bad_index = None
     if fault != "none":
         bad_index = rng.randrange(n)
-        if fault == "lexical":
+        if fault == "fileless":
+            # a failure whose only diagnostic carries no file position (answers built without a source span)
+            files[bad_index][1] = rng.choice(FILELESS) % {"p": "U%d" % bad_index}
+        elif fault == "lexical":
             files[bad_index][1] = LEX_BAD
         elif fault == "syntax":
             files[bad_index][1] = SYN_BAD
@@ -203,6 +209,43 @@ def shard(shard_i, nshards, payload):
             if not vs:
                 res.distinct.add(core.key_of("odd", cmd, name))
                 res.sample({"cmd": cmd, "args": name, "rc": r["rc"], "stdout": r["out"][:40], "codes": CODE.findall(r["err"])}, 3)
+        # ---- how many diagnostics: the agreement must hold for any number of them (the exit status is one byte wide)
+        sweep = []
+        for n in COUNTS:
+            sweep += [("check", "n-subranges", n), ("check", "n-bad-files", n), ("check", "n-bad-files+1-good", n),
+                      ("tokenize", "n-bad-characters", n), ("echo", "n-bad-files", n)]
+        for j, (cmd, name, n) in enumerate(sweep):
+            if j % nshards != shard_i:
+                continue
+            d = os.path.join(tmp, "sweep%d" % j)
+            os.makedirs(d)
+            if name == "n-subranges":
+                body = "".join("  R%d : INT(%d..%d);\n" % (k, k + 5, k) for k in range(n))
+                open(os.path.join(d, "many.st"), "w").write("TYPE\n%sEND_TYPE\n" % body)
+            elif name == "n-bad-characters":
+                open(os.path.join(d, "many.st"), "w").write("PROGRAM p\n" + " ?" * n + "\nEND_PROGRAM\n")
+            else:
+                for k in range(n):
+                    open(os.path.join(d, "f%04d.st" % k), "w").write("PROGRAM p%d VAR x : INT END_VAR END_PROGRAM\n" % k)
+                if name.endswith("good"):
+                    open(os.path.join(d, "good.st"), "w").write("PROGRAM g VAR x : INT; END_VAR x := 1; END_PROGRAM\n")
+            r = core.run_cli([cmd, d], tmp, timeout=120.0)
+            res.evaluations += 1
+            res.count("count-sweep:" + name)
+            case = {"cmd": cmd, "how": "%s:%d" % (name, n), "sweep": [name, n]}
+            if r["watchdog"]:
+                res.inconclusive.append({"why": "cli watchdog", "case": case})
+            else:
+                ncodes = len(CODE.findall(r["err"]))
+                res.seen("diagnostic_counts_observed", ncodes)
+                vs = contract(r, cmd)
+                for k_, sig, det in vs:
+                    res.violation(k_, "%s:%s" % (sig, name), det, case)
+                if r["rc"] == 0:
+                    res.violation("accepted-faulty-set", "%s:%s:exit0" % (cmd, name), {"diagnostics_printed": ncodes, "n": n}, case)
+                elif not vs:
+                    res.distinct.add(core.key_of("sweep", cmd, name, n))
+            shutil.rmtree(d, ignore_errors=True)
     finally:
         probe.close()
         shutil.rmtree(tmp, ignore_errors=True)
@@ -217,10 +260,10 @@ def run(tier, seed):
     parts = core.run_sharded(shard, payload)
     res = core.Result.merge(parts)
     extra = {
-        "rule": "generated sets of 1-5 files (valid units; at most one faulty file: lexical, syntax or a rule fault) given "
+        "rule": "generated sets of 1-5 files (valid units; at most one faulty file: lexical, syntax, a rule fault, or a construct whose only diagnostic has no file position) given "
                 "to `check` as files, permuted, as a directory and with a duplicated argument, and to `echo` / `tokenize` "
                 "as files and directory; missing path, missing + good, dangling symlink, empty directory, no argument, "
-                "empty file; the exit status / OK / error[...] agreement is asserted on every invocation; distinct = "
+                "empty file; a sweep over the number of diagnostics (1 .. 1025 inverted subranges in one file, files with a syntax error in one directory, invalid characters in one file: 254-258, 511-513, 1024/1025 included); the exit status / OK / error[...] agreement is asserted on every invocation; distinct = "
                 "distinct (command, argument form, fault kind, set) that satisfied the contract",
         "assumptions": ["echo/tokenize reference = parse_program / tokenize_program in the probe",
                         "diagnostic multisets of `check dir` and `check files` are compared when at most lexical/syntax "
@@ -233,6 +276,8 @@ def run(tier, seed):
 def replay(case):
     core.build_plc()
     c = case["case"]
+    if "sweep" in c:
+        return True, "count-sweep cases are deterministic: re-run the check"
     if "files" not in c:
         return True, "odd-path cases are replayed by re-running the check"
     tmp = core.worker_tmpdir("c13r")
